@@ -115,9 +115,12 @@ class Interp:
         raise AnalysisError(f'unsupported expression {U.src(e)}')
 
     def run(self, func):
+        self.func = func
         for s in U.body_without_docstring(func):
             if isinstance(s, ast.Assign) and len(s.targets) == 1:
                 t = s.targets[0]
+                if getattr(self, 'func', None) is not None and U.dead_callfree_store(self.func, s):
+                    continue
                 if isinstance(t, ast.Name) and isinstance(s.value, ast.Name) and s.value.id in self.ref:
                     self.ref[t.id] = self.ref[s.value.id]          # alias: same object
                     continue
